@@ -30,6 +30,9 @@ func init() {
 				bs = append(bs, Batch{Name: fmt.Sprintf("p%d", p), Args: map[string]string{"procs": fmt.Sprint(p)}, Race: true, Procs: p, Weight: min(p, 4)})
 			}
 			bs = append(bs, Batch{Name: "slow-virtual", Kind: "synctest", Race: true, Args: map[string]string{"test": "TestC05SlowHandlers"}})
+			for _, p := range []int{2, 16} {
+				bs = append(bs, Batch{Name: fmt.Sprintf("sup-p%d", p), Args: map[string]string{"mode": "sup", "procs": fmt.Sprint(p)}, Race: true, Procs: p, Weight: min(p, 4)})
+			}
 			if tier == "thorough" {
 				for i := 0; i < 8; i++ {
 					p := []int{1, 2, 4, 16}[i%4]
@@ -50,6 +53,10 @@ func chanCanon(ch *state.Channel) string {
 }
 
 func runC05(c *Ctx) {
+	if c.Arg("mode", "") == "sup" {
+		runSupervised(c, "C05")
+		return
+	}
 	sessions := c.Pick(50, 400)
 	if c.Arg("heavy", "") == "1" {
 		sessions = 600
